@@ -86,6 +86,21 @@ def run(ctx):
             model_lines.append(core.model_line("decipher_pinblock_iso_4", (key, e4[1], pan4)))
             model_expect.append("OK " + core.show(pin))
         bump("encipher4")
+    # many format 3 / format 4 encodings of mixed PIN lengths in one process (implementation only)
+    for i in range(ctx.n(6000, 40000)):
+        pin = rnd_digits(rng, rng.randrange(4, 13))
+        pan = rnd_digits(rng, 16)
+        evals += 1
+        b3 = call(pinblock.encode_pinblock_iso_3, pin, pan)
+        if b3[0] != "OK" or call(pinblock.decode_pinblock_iso_3, b3[1], pan) != ("OK", pin):
+            bad("format 3 round trip (call #%d of a mixed-length sequence)" % i, {"fn": "iso_3", "args": [pin, pan, "call %d" % i]}, pin, repr(b3))
+            break
+        if i % 4 == 0:
+            f4 = call(pinblock.encode_pin_field_iso_4, pin)
+            if f4[0] != "OK" or call(pinblock.decode_pin_field_iso_4, f4[1]) != ("OK", pin):
+                bad("format 4 field round trip (sequence)", {"fn": "field_4", "args": [pin, "call %d" % i]}, pin, repr(f4))
+                break
+    bump("iso3_sequence")
     for line, exp, got in zip(model_lines, model_expect, core.run_model(model_lines)):
         if got != exp:
             diffs.append({"request": line, "impl": exp, "model": got})
